@@ -321,7 +321,7 @@ bool splinetable<Alloc>::read_fits_core(fitsfile* fits, const std::string& fileP
 	if (error != 0)
 		throw std::runtime_error("Unable to read coefficient array 'image' size: Error "+std::to_string(error));
 	for(size_t i=0; i<ndim; i++){
-		if(naxes_temp[i]<0)
+		if(naxes_temp[i]<=0)
 			throw std::runtime_error("Invalid size in dimension "+std::to_string(i));
 	}
 	naxes = allocate<uint64_t>(ndim);
